@@ -3,7 +3,7 @@
 impl Task {
     /// Build a `Task` without a coroutine (cfg(kani) only). All fields that the runtime logic reads are set
     /// exactly as `Task::new` sets them, except those passed in.
-    pub(crate) fn verif_dummy(id: usize, state: TaskState, detached: bool) -> Task {
+    pub fn verif_dummy(id: usize, state: TaskState, detached: bool) -> Task {
         let id = TaskId(id);
         Task {
             id,
@@ -33,12 +33,12 @@ impl Task {
         }
     }
 
-    pub(crate) fn verif_set(&mut self, woken: bool, token_available: bool, blocked_in_park: bool, waiter: Option<usize>) {
+    pub fn verif_set(&mut self, woken: bool, token_available: bool, blocked_in_park: bool, waiter: Option<usize>) {
         self.woken = woken;
         self.park_state = ParkState { token_available, blocked_in_park };
         self.waiter = waiter.map(TaskId);
     }
-    pub(crate) fn verif_state(&self) -> TaskState {
+    pub fn verif_state(&self) -> TaskState {
         self.state
     }
     pub(crate) fn verif_woken(&self) -> bool {
